@@ -4,6 +4,7 @@ import (
 	"encoding/hex"
 	"fmt"
 	"io"
+	"strconv"
 )
 
 func read(rd io.Reader) (byte, error) {
@@ -42,12 +43,14 @@ func convert(b []byte) (out []byte, err error) {
 }
 
 func convertDelta(b []byte) (deltams int32, err error) {
-	_, err = fmt.Sscanf(string(b), "%d", &deltams)
+	// the whole field must be a decimal number (fmt.Sscanf would take the leading digits
+	// and ignore what follows, e.g. "12x" or "1.5", and skip white space in front)
+	n, err := strconv.ParseInt(string(b), 10, 32)
 	if err != nil {
-		return -1, err
+		return -1, fmt.Errorf("invalid time stamp %q", string(b))
 	}
 
-	return deltams, nil
+	return int32(n), nil
 
 }
 
